@@ -57,8 +57,8 @@ ASSUMPTIONS = ['floating-point rounding is outside the model (exact reals in the
                'convergence_not_proved: decay of the KKT residual, sub-gradient inclusion with the '
                'dual certificate of pdhg, start-at-solution drift and objective agreement are TESTS on '
                'generated problems (strongly convex quadratic f only; L from the operator zoo incl. '
-               'gradient / weighted; g incl. indicators, KL, Huber, group-L1); l != None is modelled '
-               'and tied but has no Douglas-Rachford theorem',
+               'gradient / weighted; g incl. indicators, KL, Huber, group-L1); l != None is modelled, '
+               'tied, and has the fixed-point theorems douglas_rachford_pd_l_fixed_point(_converse_partial)',
                'round 4: landweber_converges_linearly / cg_exact_after_dim / power_method_*_estimate_mono '
                'are theorems in exact arithmetic about LandweberP.step, CgP.step, PowerP/PowerSelfP.step; '
                'on the real code (doubles) the contraction factor is checked with relative slack 1e-9 and an '
